@@ -68,6 +68,22 @@ def opCCC (t : Tensor Int) (crop : List Int) (offset : Nat) : String :=
   if starts.any (· < 0) then "err ValueError" else
   opBbox t (starts ++ sizes) 0
 
+/-- `complex_random_crop` given the drawn (and, for the gaussian sampler, clipped) lower corner -/
+def opRandomCrop (t : Tensor Int) (crop : List Int) (offset : Nat) (lower : List Int) : String :=
+  let r := t.shape.length
+  let img : List Int := t.shape.map Int.ofNat
+  if offset + crop.length > r then "err IndexError" else
+  let shape : List Int := (List.range crop.length).map fun idx =>
+    let c := crop.getD idx 0
+    if c ≠ 0 then c else img.getD (idx + offset) 0
+  let limits : List Int := (List.range crop.length).map fun idx => img.getD (offset + idx) 0 - shape.getD idx 0
+  if limits.any (· < 0) then "err ValueError" else
+  let starts : List Int := (List.range r).map fun ax =>
+    if offset ≤ ax ∧ ax < offset + crop.length then lower.getD (ax - offset) 0 else 0
+  let sizes : List Int := (List.range r).map fun ax =>
+    if offset ≤ ax ∧ ax < offset + crop.length then shape.getD (ax - offset) 0 else img.getD ax 0
+  opBbox t (starts ++ sizes) 0
+
 def step (op : String) (gs : List (List Int)) : String :=
   match op, gs with
   | "center_crop", [shape, data, s] =>
@@ -81,6 +97,10 @@ def step (op : String) (gs : List (List Int)) : String :=
   | "ccc", [shape, data, crop, [offset]] =>
     match mkT shape data with
     | some t => opCCC t crop offset.toNat
+    | none => "err BadOp"
+  | "rcrop", [shape, data, crop, [offset], lower] =>
+    match mkT shape data with
+    | some t => opRandomCrop t crop offset.toNat lower
     | none => "err BadOp"
   | "pad", [shape, data, target, [fill]] =>
     match mkT shape data with
